@@ -88,6 +88,9 @@ func (Prop) Gen(seed int64, tier string) *harness.Case {
 		}
 	}
 	w.ConsForm = r.Intn(3)
+	if r.Intn(5) == 0 {
+		w.ConsForm = 3 // switch-dispatch consumer (only rendered for plain int64 pipelines)
+	}
 	w.Sleep = r.Intn(5) == 0
 	w.Epilogue = r.Intn(2) == 0
 	w.FwdSpawn = r.Intn(4)
@@ -131,6 +134,9 @@ func (Prop) Gen(seed int64, tier string) *harness.Case {
 			w.ResBuf = tot
 		}
 	}
+	if w.ConsForm == 3 && !w.switchConsumer() {
+		w.ConsForm = r.Intn(3)
+	}
 	if w.Nils {
 		// nil is a legal item of an interface channel; only the nil-terminated consumer form cannot carry it
 		// (applied last: the tier-specific adjustments above draw the forms again)
@@ -160,7 +166,23 @@ func (Prop) Gen(seed int64, tier string) *harness.Case {
 		Choices: cs, Source: Render(&w)}
 }
 
-const nSpawn = 8
+const nSpawn = 10
+
+// switchConsumer: the final consumer is `switch <-ch { case a, b: ... }` in a counted loop (ConsForm 3).
+func (w *Work) switchConsumer() bool {
+	return w.ConsForm == 3 && w.Elem == "int64" && !w.Nils && w.Workers <= 1
+}
+
+// wantClasses is what the switch consumer must count.
+func wantClasses(w *Work) string {
+	n := [3]int64{}
+	for p, seq := range expected(w) {
+		for i := range seq {
+			n[(i+p)%3]++
+		}
+	}
+	return fmt.Sprint([]interface{}{n[0], n[1], n[2]})
+}
 
 // wantArgs is what producer p must have received as its parameters.
 func wantArgs(w *Work, p int) string {
@@ -176,6 +198,10 @@ func wantArgs(w *Work, p int) string {
 		return fmt.Sprint([]interface{}{id, int64(12), int64(13), n})
 	case 6:
 		return fmt.Sprint([]interface{}{id, int64(12), int64(13), int64(14), int64(15), n})
+	case 8:
+		return fmt.Sprint([]interface{}{id, nil, int64(13), n})
+	case 9:
+		return fmt.Sprint([]interface{}{id, nil, n})
 	}
 	return fmt.Sprint([]interface{}{id, n})
 }
@@ -310,6 +336,10 @@ func Render(w *Work) string {
 			b.WriteString("go prod4(pid, 12, 13, ns[pid - 1])\n")
 		case 6:
 			b.WriteString("go prod6(pid, 12, 13, 14, 15, ns[pid - 1])\n")
+		case 8:
+			b.WriteString("go prod4(pid, nil, 13, ns[pid - 1])\n")
+		case 9:
+			b.WriteString("go prod3(pid, nil, ns[pid - 1])\n")
 		default:
 			b.WriteString("xs = [pid, ns[pid - 1], 9]\ngo prodw(xs...)\n")
 			if w.MutateArg {
@@ -374,12 +404,37 @@ func Render(w *Work) string {
 		last = "res"
 	}
 	b.WriteString("out = []\n")
-	if w.Nils {
+	if w.switchConsumer() {
+		// the consumer dispatches on the received value: the tag `<-ch` must be evaluated once per message
+		var c1, c2 []string
+		tot := 0
+		for p, seq := range expected(w) {
+			for i, v := range seq {
+				tot++
+				switch (i + p) % 3 {
+				case 0:
+					c1 = append(c1, fmt.Sprint(v))
+				case 1:
+					c2 = append(c2, fmt.Sprint(v))
+				}
+			}
+		}
+		if len(c1) == 0 {
+			c1 = []string{"-7"}
+		}
+		if len(c2) == 0 {
+			c2 = []string{"-8"}
+		}
+		fmt.Fprintf(&b, "n1 = 0\nn2 = 0\nn3 = 0\nfor kk = 0; kk < %d; kk++ {\nswitch <-%s {\ncase %s:\nn1++\ncase %s:\nn2++\ndefault:\nn3++\n}\n}\nprobe(\"classes\", [n1, n2, n3])\nprobe(\"after-count\", <-%s)\n",
+			tot, last, strings.Join(c1, ", "), strings.Join(c2, ", "), last)
+	} else if w.Nils {
 		b.WriteString(consumerLoop(w.ConsForm, last, "vm", "emit(vm)") + "\n")
 	} else {
 		b.WriteString(consumerLoop(w.ConsForm, last, "vm", "emit(vm)\nout += vm") + "\n")
 	}
-	if last == "res" {
+	if w.switchConsumer() {
+		// count-based loop: nothing to say about "ended before close"
+	} else if last == "res" {
 		b.WriteString("exited(\"res\", clres)\n")
 	} else {
 		fmt.Fprintf(&b, "exited(\"%s\", cl%d)\n", last, stages-1)
@@ -604,6 +659,15 @@ func judge(wp *Work, got []interface{}, probes map[string]interface{}, mainVal i
 		}
 		if mainErr != nil {
 			return fail("script-error", fmt.Sprintf("the pipeline script failed: %v (delivered: %s)", mainErr, order))
+		}
+		if w.switchConsumer() {
+			if got := fmt.Sprint(probes["classes"]); got != wantClasses(&w) {
+				return fail("switch-dispatch", fmt.Sprintf("a consumer that dispatches with `switch <-ch { case ... }` counted %s messages per class, the producers sent %s (the tag must be received once per message)", got, wantClasses(&w)))
+			}
+			if v, ok := probes["after-count"]; !ok || v != nil {
+				return fail("closed-recv", fmt.Sprintf("after all messages were counted, a receive on the closed channel yielded %#v", v))
+			}
+			return nil
 		}
 		exp := expected(&w)
 		if w.Workers > 1 {
